@@ -109,7 +109,7 @@ def _run_schedules(binp, scheds, d, tag="s", timeout=1800, env=None):
         else:
             s = dict(scheds[last_begin], id=last_begin, cfg=norm_cfg(scheds[last_begin]["cfg"]))
             if not is_lib_panic(text) and "DATA RACE" not in text:
-                raise Infra("pipedrv died on schedule %d without a library panic:\n%s\n%s" % (last_begin, json.dumps(s), text[-3000:]))
+                raise Infra("pipedrv died (status %s) on schedule %d without a library panic:\n%s\n%s" % (p.returncode, last_begin, json.dumps(s)[:1500], text[-3000:]))
             traces[last_begin] = {"id": last_begin, "cfg": s["cfg"], "outs": [], "wins": [], "crash": True,
                                   "crash_msg": panic_head(text), "sched": s, "epilogue": s.get("epilogue", ""), "origin": s.get("origin", "")}
         if "DATA RACE" in text:
